@@ -141,7 +141,7 @@ class Gen:
             elif r < p_new + 0.17 + p_rem + 0.18:
                 self.mem(t, rng.choice(pool))
             elif r < p_new + 0.17 + p_rem + 0.18 + w_iter:
-                self.emit(rng.choice([f'iter {t}', f'iter {t}', f'riter {t}', f'len {t}']))
+                self.emit(rng.choice([f'iter {t}', f'iter {t}', f'riter {t}', f'len {t}', f'mark {t}', f'hash {t}']))
             else:
                 k = rng.choice(pool); self.set(t, k)
     def drain(self, t, order='random'):
@@ -260,6 +260,54 @@ def own_case(rng, kind, pool, managed):
         if len(b) in (1, 4, 9, 20): g.emit(f'iter {t}')
     g.emit(f'len {t}'); g.emit(f'check {t}')
     g.churn(t, pool, 30, 6)
+    return g.lines
+
+def markhash_case(rng, kind, pool, managed):
+    """the collector's view (Table_Mark) and hash(t) (Table_Hash): the same bindings bound in two orders in two tables (colliding keys:
+    the slot orders differ, one table with an extra key removed again and an update in between), mark / hash of both; then one table
+    through every size: mark / hash at the last item count before each growth, right after it, and on the way down through the shrinking
+    sizes to a single record and none; after resize(t, 0) (no slots), after a reserve (mostly empty records), after new with pairs /
+    assign from another map, of a copy (collector-managed) before and after a forced collection"""
+    g = Gen(rng); a, b, c = rng.sample(range(NT), 3)
+    g.new(a, kind, managed); g.new(b, kind, rng.random() < 0.3)
+    pool = list(dict.fromkeys(pool)); rng.shuffle(pool)
+    g.emit(f'mark {a}'); g.emit(f'hash {a}')                                   # fresh table: 5 empty records
+    n = rng.choice([2, 3, 4, 4, 8, 9, 15, 20])
+    ks = pool[:n]; extra = pool[n]
+    vals = {}
+    for k in ks: g.set(a, k); vals[k] = g.bound[a][k]
+    order = list(ks)
+    if rng.random() < 0.7: rng.shuffle(order)
+    else: order.reverse()
+    g.set(b, extra)
+    for k in order:
+        v = vals[k] if rng.random() < 0.7 else 0
+        g.emit(f'set {b} {k} {v}'); g.bound[b][k] = v
+    for k in order: g.emit(f'set {b} {k} {vals[k]}'); g.bound[b][k] = vals[k]      # updates in place: now the bindings of `a`
+    g.rem(b, extra)
+    for t in (a, b): g.emit(f'hash {t}'); g.emit(f'mark {t}'); g.emit(f'iter {t}')
+    # through the sizes
+    fresh = pool[n + 1:]
+    for p in (5, 11, 23, 53):
+        lo, hi = SLOT_RANGE[p]
+        if len(g.bound[a]) > hi or not fresh: continue
+        while len(g.bound[a]) < hi and fresh: g.set(a, fresh.pop())
+        g.emit(f'mark {a}'); g.emit(f'hash {a}')
+        if fresh: g.set(a, fresh.pop()); g.emit(f'mark {a}'); g.emit(f'hash {a}')   # right after the growth
+    g.copy(c, a); g.emit(f'hash {c}'); g.emit(f'mark {c}'); g.emit('gc'); g.emit(f'mark {c}'); g.emit(f'hash {c}')
+    ks = list(g.bound[a].keys()); rng.shuffle(ks)
+    for k in ks:
+        g.rem(a, k)
+        if len(g.bound[a]) in (48, 47, 21, 20, 10, 9, 5, 4, 1, 0): g.emit(f'mark {a}'); g.emit(f'hash {a}')
+    g.resize(a, 0); g.emit(f'mark {a}'); g.emit(f'hash {a}')
+    g.set(a, pool[0]); g.emit(f'mark {a}'); g.emit(f'hash {a}')
+    g.resize(a, rng.choice([30, 100, 300])); g.emit(f'mark {a}'); g.emit(f'hash {a}')
+    if kind in 'ISPQ':
+        pk = [rng.choice(pool[:6]) for _ in range(rng.choice([0, 3, 5, 9]))]
+        g.newp(b, kind, pk); g.emit(f'mark {b}'); g.emit(f'hash {b}')
+        g.assignm(b, kind, rng.sample(pool, min(len(pool), rng.choice([0, 1, 4, 10])))); g.emit(f'mark {b}'); g.emit(f'hash {b}')
+    g.assign(b, c); g.emit(f'hash {b}'); g.emit(f'hash {c}'); g.emit(f'mark {b}')
+    g.churn(c, pool, 25, 6, w_iter=0.2)
     return g.lines
 
 _string_cache = {}
@@ -452,7 +500,7 @@ class C02(Spec):
     harness_flags = ('-fno-sanitize=pointer-overflow',)
     technique = ('Lean 4 proof: the robin-hood model of Table.c (insert with displacement and in-place update, backward-shift removal, '
                  'rehash as a fold, resize, assign/copy incl. self-assignment, constructor with pairs, assign from another kind of map, the address '
-                 'test of Table_Get, set/rem/mem/get given the table\'s own stored key and value objects) refines an association list for every hash function and every history, by a local '
+                 'test of Table_Get, set/rem/mem/get given the table\'s own stored key and value objects, Table_Mark as the list of callback calls, Table_Hash as a fold over iteration) refines an association list for every hash function and every history, by a local '
                  'slot-array invariant; source-derived parameters (prime table, load factor, tie rule, empty-table guard, self-assignment guard, '
                  'probe arithmetic, eq/Int_Cmp/hash_data and the text of String_Cmp for the Int and String key classes, the bodies of the hand-mirrored '
                  'functions pinned per function group) regenerated each run; white-box differential check of the whole slot array against the real Table after every operation')
@@ -468,7 +516,8 @@ class C02(Spec):
                   'C02_refines_map_own_objects: the same refinement for histories in which the key argument of set/rem/mem/get and the value argument of set are the key object the table '
                   'itself stores for a key (what foreach hands out) or the value object of one of its records (what get returned) — update and prune while walking, growth under the table\'s own value object. '
                   'C02_last_set_wins (no restriction on the history any more): get answers what lastBinding computes from the operation list alone, through assign, copy, constructor pairs and assignment from another map. '
-                  'C02_source_as_modelled_*: the bodies of Table_Set_Move, Table_Rehash, Table_Rem, Table_Mem/Get, Table_Clear/Resize/Len and the four iterator functions equal the texts the model was written against. '
+                  'C02_refines_map_mark_hash (extension round): the same refinement for histories interleaved with Table_Mark(t, gc, f) and hash(t): the calls of the marking callback come in (key object, value object of the same record) pairs that are a permutation of the map\'s bindings, two per binding, each an object of an occupied record inside the array (C02_mark_reports_bindings: the collector is told every bound object exactly once and never an empty record); hash(t) is the xor-fold over the map\'s bindings and so depends on the bindings only, not on placement, collisions, growth or the order of the operations (C02_hash_depends_on_bindings_only). '
+                  'C02_source_as_modelled_*: the bodies of Table_Set_Move, Table_Rehash, Table_Rem, Table_Mem/Get, Table_Clear/Resize/Len, the four iterator functions, Table_Mark and Table_Hash equal the texts the model was written against. '
                   'The parameters a source change can flip (Table_Primes, load factor, `j > p`, the nslots = 0 guard, the self-assignment guard, Table_Probe) are regenerated '
                   'from /repo on every run and the theorems are re-checked against them; the model is tied to the real Table by comparing the '
                   'complete slot array, nitems and nslots after every operation of thousands of adversarial histories (keys colliding at every '
@@ -478,7 +527,7 @@ class C02(Spec):
     level_note = ('Trusted: Lean kernel; axioms propext/Quot.sound/Classical.choice at most; translate/g_table.py (regex extraction); the '
                   'harness/driver comparison (testing) as the link between src/Table.c and the model; memory layout of a slot, `assign`/`destruct` '
                   'of elements and hash()/eq() of Int/String are taken as functions (C09/C10/C05 cover them); strcmp itself (libc) is modelled by bytesCmp, the tie is the '
-                  'pinned text of String_Cmp plus the near-key correspondence runs. Not covered: Table_Cmp/Hash/Show (C09/C10), Float keys (eq is not an equivalence), allocation failure.')
+                  'pinned text of String_Cmp plus the near-key correspondence runs. hash() of a value object is a function of the value (C10). Not covered: Table_Cmp (slot-order dependent: KF-C10-table-cmp) and Table_Show (C14), Table_Del / the destruct calls (oracle only: live-element ledger of the probe types), Float keys (eq is not an equivalence), allocation failure.')
     rule = ('op files over 8 table variables: (a) Int keys from 1-3 residue classes modulo lcm(5,11,23,53,101)[*197*389...] (in a third of the cases: keys that in addition differ by multiples of 2^32) so that every class is '
             'one collision cluster at every table size passed through, phases grow / churn (new keys, updates biased to recently inserted = '
             'non-first cluster members, removals of present and absent keys, get/mem/len/iter/riter) / drain / refill; (b) probe element type with '
@@ -495,7 +544,10 @@ class C02(Spec):
             'set(t, p, v) for every stored key object, value objects as keys (Int -> Int), mem/rem with the stored key objects down through the shrinking sizes; table kinds I Int->Int, S String->Int, '
             'P PKey->PVal (24/16 bytes), V Int->String and W String->String (values that own memory), J Int->PVal (ksize < vsize), Q a 12-byte key type (Table_Size_Round); 30-40% of the tables '
             'are collector-managed (newm, copy) with forced collections (gc) between operations; (e) larger tables (window dumps + checksums); '
-            '(f) Table_Ideal_Size on ranges. non-trivial observation = the dump shows an entry away from its home slot, or the op raised '
+            '(f) Table_Ideal_Size on ranges; (g) mark / hash (Table_Mark through the public mark() with a recording callback, hash(t)): mixed into every churn phase and the resize(0) phase, '
+            'plus per kind a directed case: the same bindings bound in two orders in two tables (different slot orders, one with an extra key removed again and updates in place), one table through every size (last count before each growth, '
+            'right after it, down through the shrinking sizes to one record and none), after resize(t, 0), after a reserve, after new with pairs / assign from another map / assign, a managed copy around a forced collection; the harness '
+            'prints branch counters (calls on zero-slot tables, records skipped / reported, wrapped clusters, hashes of empty tables, bindings folded). non-trivial observation = the dump shows an entry away from its home slot, or the op raised '
             'KeyError/FormatError, or it rehashed; distinct = distinct text of (op, observation line).')
     trusted_base = ('translate/g_table.py generator Table (regex over src/Table.c)',
                     'harness/h_table.c + lean/Driver/Table.lean (correspondence is testing)',
@@ -580,6 +632,15 @@ class C02(Spec):
                         probe_pool(rng, 90, rng.choice(['const', 'end', 'adjacent', 'mult'])) if kind == 'P' else
                         q_pool(rng, 90, rng.choice(['const', 'end', 'adjacent', 'mult'])) if kind == 'Q' else spool[:90])
                 cs.append(Case(f'own{rep}_{kind}', own_case(rng, kind, pool, managed=rng.random() < 0.4)))
+        # (c3) the collector's view and hash(t): Table_Mark / Table_Hash on the same bindings in different slot orders, at every size
+        for rep in range(reps):
+            spool = string_pool(rng, hexe)
+            for kind in 'IPQVJ' + ('SW' if spool else ''):
+                pool = (int_pool(rng, 70, 101, rng.sample([0, 1, LCM - 1, -3], rng.choice([1, 2]))) if kind in 'IVJ' else
+                        probe_pool(rng, 70, rng.choice(['const', 'end', 'adjacent', 'mult'])) if kind == 'P' else
+                        q_pool(rng, 70, rng.choice(['const', 'end', 'adjacent', 'mult'])) if kind == 'Q' else spool[:70])
+                if len(set(pool)) < 30: continue
+                cs.append(Case(f'markhash{rep}_{kind}', markhash_case(rng, kind, pool, managed=rng.random() < 0.4)))
         # (d) resize / assign / copy across tables
         for rep in range(reps * 2):
             g = Gen(rng)
@@ -599,7 +660,7 @@ class C02(Spec):
                     g.resize(t, 0)                                   # nslots = 0: every operation must still work (F03 territory)
                     for _ in range(rng.randrange(0, 5)):
                         k = rng.choice(pool)
-                        g.emit(rng.choice([f'get {t} {k}', f'mem {t} {k}', f'rem {t} {k}', f'iter {t}', f'riter {t}', f'len {t}', f'resize {t} 0', f'check {t}']))
+                        g.emit(rng.choice([f'get {t} {k}', f'mem {t} {k}', f'rem {t} {k}', f'iter {t}', f'riter {t}', f'len {t}', f'resize {t} 0', f'check {t}', f'mark {t}', f'hash {t}']))
                 elif r < 0.58: g.resize(t, n + rng.choice([0, 0, 1, 5, 40, 300]))          # reserve (or exactly len)
                 elif r < 0.64 and n > 0: g.resize(t, rng.randrange(1, n + 1) if n > 1 else 1)   # below len: FormatError (== len is allowed)
                 elif r < 0.74:
@@ -694,6 +755,7 @@ class C02(Spec):
         for l in core.lines_with('I ', c_out):
             m = re.search(r'full-verifications=(\d+)', l)
             if m: acc['oracle_full_verifications'] = acc.get('oracle_full_verifications', 0) + int(m.group(1))
+            for k, v in re.findall(r'((?:mark|hash)-[\w-]+)=(\d+)', l): acc[k.replace('-', '_')] = acc.get(k.replace('-', '_'), 0) + int(v)
 
     def model_selfcheck(self, case, m_out):
         ms = core.lines_with('M ', m_out)
